@@ -94,13 +94,17 @@ def make_payload(spec):
 class Stack:
     """One real ECU attached to the simulated bus."""
 
-    def __init__(self, world, name, dll="j1939-21", max_cmdt=1, rts_cts_dt=None, bam_dt=None, tx_time=0.0, tx_pre=0.0):
+    def __init__(self, world, name, dll="j1939-21", max_cmdt=1, rts_cts_dt=None, bam_dt=None, tx_time=0.0, tx_pre=0.0,
+                 tx_all_contexts=False):
         j = load()
         self.world = world
         self.name = name
         self.dll = dll
         self.tx_time = tx_time        # virtual time a send call made by a stack THREAD takes (driver write); 0 = instantaneous
         self.tx_pre = tx_pre          # virtual time such a call waits BEFORE the frame is on the bus (transmit queue / driver lock)
+        # True: send calls made in the receive context (from callbacks) and by the application take that time as well - the
+        # receive context of this stack is then blocked meanwhile (further frames for it queue up), everything else goes on
+        self.tx_all_contexts = tx_all_contexts
         self.rx_hooks = []            # callables(listener name) run inside subscriber callbacks (application reacting to a message)
         self.deliveries = []      # (t, listener, prio, pgn, sa, bytes)
         self.requests = []        # (t, ca_name, src, dest, pgn)
@@ -124,11 +128,11 @@ class Stack:
     # bus side ------------------------------------------------------------------
     def _send(self, can_id, extended_id, data, fd_format=False):
         f = simbus.mkframe(can_id, list(data), ext=extended_id, fd=fd_format)
-        if self.tx_pre and self.world.sim.current is not None:
+        if self.tx_pre and (self.world.sim.current is not None or self.tx_all_contexts):
             sk.FAKE_TIME.sleep(self.tx_pre)
         self.sent.append((self.world.sim.now, f))
         self.world.bus.transmit(self, f)
-        if self.tx_time and self.world.sim.current is not None:
+        if self.tx_time and (self.world.sim.current is not None or self.tx_all_contexts):
             # the frame is on the bus; the calling thread stays inside the driver call a little longer, so a reply can be
             # handled by the receive path before the send call has returned (threaded counterpart of latency 0)
             sk.FAKE_TIME.sleep(self.tx_time)
